@@ -10,7 +10,8 @@ HERE = os.path.dirname(os.path.dirname(os.path.abspath(__file__)))
 CLAIMED = {
     "C16": ("CrossHair symbolic execution per subsidy era (height unbounded inside the era) + z3 integer arithmetic for the total",
             "Solver verdict over every height inside each of the 65 eras (no height bound), every amount for the validator's limit; "
-            "the supply total by exact integer arithmetic. Stronger than the exhaustive sweep the property asks for.",
+            "the supply total by exact integer arithmetic; the schedule and the limit as ENFORCED by CoinState.add_block at era boundaries and on "
+            "output totals (harness shared with C02). Stronger than the exhaustive sweep the property asks for.",
             "Trusts z3/CrossHair's integer model; heights >= 0.", "DESIGN.md 4/C16"),
     "C17": ("CrossHair symbolic execution of merkletree.py with an injective (tagged-identity) hash constructor",
             "Solver verdict over all leaf values for every pair of list lengths <= 5 (quick) / <= 7 (thorough): equal roots imply equal "
@@ -28,20 +29,23 @@ CLAIMED = {
             "DESIGN.md 4/C07"),
     "C11": ("CrossHair symbolic execution of MessageReceiver.receive; cut positions enumerated, stream contents symbolic",
             "Solver verdict over all contents of streams <= 10 (quick) / 12 (thorough) bytes and of structured 2-3 frame streams under every "
-            "2- and 3-way cut: deliveries, refusal and residual state equal the unfragmented run and a reference parser; size-limit boundary.",
+            "2- and 3-way cut: deliveries, refusal and residual state equal the unfragmented run and a reference parser; size-limit boundary; "
+            "the same with MAX_MESSAGE_SIZE patched to 2-3 bytes, which puts messages AT the limit followed by further data inside the bound.",
             "Payload parsing is replaced by a recorder (C07/C20 cover it); longer streams and 4+-way cuts are outside (residual state is compared "
             "after every prefix, which is what makes further cuts redundant).", "DESIGN.md 4/C11"),
     "C04": ("CrossHair symbolic execution of CoinState.add_block_no_validation: inductive step with symbolic heights + all block trees <= 5/6 blocks",
             "Inductive step from an abstract pre-state (heights symbolic over the whole encodable range) proves head/tips/index update rules; "
             "every parent vector for <= 5 (quick) / 6 (thorough; 7 split by case) blocks, each block's target a symbolic choice, is compared "
-            "with a reference after each arrival, including forks().",
+            "with a reference after each arrival, including forks(); on a chain of 130 (thorough 260) blocks a block and its child on a parent at "
+            "any (symbolic) height are stored and every block keeps its index and unspent-output entry.",
             "PyMap stands in for immutables.Map; ids are preset tokens; assumes stated height = parent's + 1 (C05) and the head-is-maximal invariant.",
             "DESIGN.md 4/C04"),
     "C01": ("CrossHair symbolic execution of CoinState.add_block on a directly constructed chain state with an adversarial symbolic spend",
             "Solver verdict for every (reference-pool choice x free 32-bit index x 7 signature-object kinds x symbolic values) in blocks of "
             "<= 2 transactions x <= 2 inputs x <= 2 outputs: accepted implies the stated conditions, rejected leaves the pre-state untouched; "
             "validation reads only the parent's unspent map; equal signed messages imply equal references and outputs; the relay entry "
-            "(handle_block_received) refuses unauthorised spends on the head's branch and on a side branch.",
+            "(handle_block_received) refuses unauthorised spends on the head's branch and on a side branch, also when validation fails with a "
+            "non-validation error, and rolls back to exactly the state it held.",
             "Ideal signatures (EUF-CMA), tagged-identity hashes, chain-sample oracle, PyMap/PyBytesIO; candidate placed exactly one above "
             "the (patched) checkpoint horizon. Larger blocks are argued compositionally.", "DESIGN.md 4/C01"),
     "C02": ("CrossHair symbolic execution of CoinState.add_block with fully symbolic amounts + z3 integer arithmetic for the cumulative schedule",
@@ -53,13 +57,15 @@ CLAIMED = {
             "Per rule, the broken quantity is symbolic (32-byte id and target; stated/recorded height; three clocks; stated target choice with the "
             "retarget kernel recorded at its call site on either side of a fork; evidence field bytes; a consistently forged evidence triple); "
             "calculate_new_target is proved equal to min(floor(T*dt/1209600), 2^256-1) for every 256-bit T and dt >= 0 by z3 (two solvers); "
-            "the real sampler equals a reference; the node's own assembly passes add_block at and next to a retarget boundary.",
+            "the real sampler equals a reference; the node's own assembly passes add_block at and next to a retarget boundary, and the miner's "
+            "candidate after a head change builds on and is later than the new head.",
             "Stubs as C01 plus a recorder for calculate_new_target at the call site (the kernel is decided separately) and LRO ids for assembly; "
             "one rule broken at a time; stated height assumed above the checkpoint horizon.", "DESIGN.md 4/C05"),
     "C18": ("CrossHair symbolic execution of validate_block_in_coinstate per checkpointed height (symbolic 32-byte id on an otherwise valid candidate) + concrete anchor with the real scrypt",
             "Solver verdict over every 32-byte id at each checkpointed height (12 heights quick, all thorough): accepted iff id == checkpoint, "
             "with the candidate otherwise fully valid so that a gate comparison off by one is refuted (height 0 with an all-zero parent "
-            "included); a forged spend one above the real horizon is rejected. The recorded real blocks are a concrete anchor (real hash functions, also with an unvalidated fork as head).",
+            "included), the verdict being the same on repeated presentation; a forged spend one above the real horizon is rejected; "
+            "validate_proof_of_work accepts exactly id < target for every 32-byte id and target (incl. real checkpoint ids of the easy-target era). The recorded real blocks are a concrete anchor (real hash functions, also with an unvalidated fork as head).",
             "Gate part: stubs as C01. Anchor part is not a solver verdict (no quantifier) and is marked as such in the evidence.", "DESIGN.md 4/C18"),
     "C19": ("CrossHair symbolic execution of the peer-book handlers on a node shell + z3 encoding of is_time_to_connect generated from its source",
             "One event from any peer-book state over 3 addresses satisfying the disjointness invariant keeps it (inductive step); back-off rule "
@@ -71,14 +77,16 @@ CLAIMED = {
             "Solver verdict per step: a symbolic submission (reference pool x free index x signature kind x value) is admitted only if valid at "
             "the head and disjoint from the pool, otherwise the pool is untouched; after each kind of head change (extension mining a member / a "
             "conflicting spend, switch to and from a sibling fork with a reward-only tip) the pool is exactly the members valid at the new head; "
-            "a head change arriving while a submission is validated (modelled synchronously at the validation point when the lock is free) leaves "
+            "submission / head change / conflicting or forged (two inputs of one key, one unsigned) submission sequences, with the node's "
+            "roll-back state different from its current state; a head change arriving while a submission is validated (modelled synchronously at the validation point when the lock is free) leaves "
             "no invalid member; relay only of new admitted transactions.",
             "Node shell; stubs as C01; pool <= 2-4 members; real thread schedules beyond the one modelled interleaving point are outside.", "DESIGN.md 4/C13"),
     "C12": ("CrossHair symbolic execution of MinerWatcher.handle_request_scrypt_input_message / handle_scrypt_output_message on a node shell",
             "Solver verdict over symbolic clocks (assembly and discovery), nonce, parent timestamp and pool fees (0..2 pending transactions) at "
             "ordinary, retarget-boundary and halving heights: the found block passes the node's own add_block, pays exactly subsidy + fees to the "
             "miner's key, is later than its parent, and is adopted (served state incl. a stale candidate that does not become the head, store "
-            "calls, broadcast to every peer although one fails to send - nothing leaves before validation). "
+            "calls, broadcast to every peer although one fails to send - nothing leaves before validation); a candidate handed out after a head "
+            "change builds on the new head; work after a reorganisation drops the losing branch's pending transaction. "
             "Known finding F5 (clock >= 30 s behind the head) is reported as KNOWN-FINDING and excluded by an added assumption.",
             "MinerWatcher shell without processes/queues; stubs as C01 with LRO ids; elapsed time >= 40000 s at boundaries; competing blocks between "
             "assembly and discovery (threads) outside.", "DESIGN.md 4/C12"),
@@ -92,19 +100,20 @@ CLAIMED = {
     "C03": ("CrossHair symbolic execution of add_block_no_validation / uto_apply_* / pkb_apply_* / PublicKeyBalances (step from a consistent state + all trees <= 4/5 blocks)",
             "Solver verdict: the new block's unspent map equals a reference application to the parent's map for every parent choice and served head, "
             "all other entries are the identical objects and the old state is unchanged; the (unspent, balances) consistency invariant is preserved "
-            "for symbolic owners and values; the replayed balance view reads only ancestors and equals a recount of the stored map; per-block maps "
+            "for symbolic owners and values; the replayed balance view reads only ancestors, equals a recount of the stored map and does not depend on "
+            "the order in which blocks are asked for; per-block maps "
             "are equal across arrival orders on every tree of <= 4 (quick) / 5 (thorough) blocks.",
             "PyMap for immutables.Map, preset ids; validity precondition of C01 assumed for the applied block.", "DESIGN.md 4/C03"),
     "C14": ("CrossHair symbolic execution of create_spend_transaction / sign_transaction and of the transaction validators on their result",
             "Solver verdict over symbolic balances (3 wallet-owned outputs over 2 keys + foreign outputs), amount, fee and pre-existing used-set, "
-            "for two successive requests (also after a confirmed two-input consolidation and across a reorganisation F -> P with an output used "
-            "on P only): a returned transaction passes both validators at the head, pays exactly the amount, returns exactly the "
+            "for two successive requests (also after a confirmed two-input consolidation, after the sibling fork overtook, and across a reorganisation F -> P with an "
+            "output used on P only): a returned transaction passes both validators at the head, pays exactly the amount, returns exactly the "
             "rest as change (none when zero), uses only unused wallet outputs and records exactly those; a refusal changes nothing and happens "
             "only when the unused outputs do not cover amount + fee.",
             "Ideal signing key; stubs as C01; total value <= documented maximum; wallets needing ~1977+ inputs (size limit) outside.", "DESIGN.md 4/C14"),
     "C15": ("CrossHair symbolic execution of the wallet's key bookkeeping, dump/load, get_balance and save_wallet (symbolic structure, ghost set of handed-out keys, symbolic crash point)",
             "Solver verdict from every invariant wallet structure over 4 keys: hand-out / restore / save-load / hand-out keeps the invariant and never "
-            "re-issues a key while unused ones remain (known finding F7: exhausted-wallet restore, reported as KNOWN-FINDING and excluded); dump-load "
+            "re-issues a key while unused ones remain, whatever text the second request carries (known finding F7: exhausted-wallet restore, reported as KNOWN-FINDING and excluded); dump-load "
             "is the identity incl. order; balance = recount of the head's unspent outputs over wallet keys (also when one key is paid twice by one "
             "transaction); save_wallet under a crash before any file operation with eager and buffered writes leaves the complete old or new "
             "file, and a restart through open_or_init_wallet loads exactly one of them (replayed with a real process death on a real directory).",
@@ -119,11 +128,13 @@ CLAIMED = {
             "SQLite replaced by a relational model of the statements the store issues (agreement with real sqlite3 checked on 30 scenarios per "
             "run; replays use real SQLite); LRO ids.", "DESIGN.md 4/C08"),
     "C09": ("CrossHair symbolic execution of ConnectedRemotePeer.handle_block_received on a node shell with the real BlockStore on the relational sqlite stand-in",
-            "Solver verdict per kind of delivered block (13 kinds: valid on head / on an older block, duplicate, orphan, three by-itself defects, "
-            "four in-state defects, apply error, a block whose validation raises a non-validation error), each also conflicting with the pending "
+            "Solver verdict per kind of delivered block (16 kinds: valid on head / on an older block, duplicate, orphan, three by-itself defects, "
+            "four in-state defects, apply error, a block whose validation raises a non-validation error, an unauthorised spend on a side branch, an orphan that is delivered again after "
+            "its parent, an altered body under a genuine header followed by the genuine block), each also conflicting with the pending "
             "transaction, with symbolic clocks, timestamps, values and reward: accepted iff valid; accepted => in state, flushed, relayed once iff "
             "new head, repeat is a no-op; rejected => served state is the identical object, no published state ever contained the block, store rows, "
-            "write buffer and pool untouched; a following valid block is accepted and stored.",
+            "write buffer and pool untouched; a following valid block is accepted and stored; a refusal whose reason has gone (clock caught up, parent arrived) is not remembered; a block "
+            "that overtakes the served head is relayed. The pre-state is published through set_coinstate's default arguments as the miner does.",
             "Node shell, relational sqlite stand-in (validated in C08), stubs as C01 with preset LRO ids; bulk download outside the property.", "DESIGN.md 4/C09"),
     "C20": ("CrossHair symbolic execution of LocalPeer.handle_remote_peer_selector_event down to the decoders and message handlers, on symbolic bytes and on message objects with symbolic fields",
             "Solver verdict (A) for every message type, unknown types, symbolic header / magic bytes and bodies of <= 24 symbolic bytes, before and "
@@ -131,14 +142,16 @@ CLAIMED = {
             "a valid transaction, unknown data type, get-data for a transaction, header data, orphan block, by-itself-invalid block, a block whose "
             "validation raises an internal error, transactions failing each rule, over-limit inventory): no exception escapes the per-connection "
             "handler; chain state object, pool, store buffer/rows and the other peers' connection state are unchanged (also when the current state "
-            "was published through set_coinstate's default arguments, as the miner does); nothing is relayed.",
+            "was published through set_coinstate's default arguments, as the miner does); nothing is relayed; a corrupted copy of an unknown block "
+            "does not prevent the genuine block from being accepted afterwards.",
             "Node shell (recording selector, fake sockets, buffer-only store); length prefixes <= 3 octets; bodies longer than 24 bytes outside.", "DESIGN.md 4/C20"),
     "C10": ("CrossHair symbolic execution of the synchronisation handlers: step lemmas (locator, inventory service, inventory consumption) + one FIFO two-node schedule with symbolic chain shapes",
             "RESTRICTED CLAIM. Decided: the locator formula for every height < 2^32; the inventory service for every (responder height, requester "
             "height, fork height, locator of <= 3 entries, requester branch stored or not, requester lagging on a stored branch that has overtaken) within the bound - the reply is a consecutive run of "
             "active-chain ids whose first item's parent the requester has, non-empty whenever the responder has something the requester lacks, at "
             "most one batch; inventory consumption requests exactly the unknown ids once and always continues after the last item; ChainManager.step issues exactly "
-            "one request when nothing is in progress and a candidate exists and none without reason; on one FIFO "
+            "one request when nothing is in progress and a candidate exists and none without reason; after convergence a transaction spending a "
+            "downloaded output reaches the pool and is passed on once; on one FIFO "
             "schedule two real nodes converge to the greater height with a complete chain and no block is sent twice. NOT decided: convergence "
             "and quiescence under every interleaving and topology on 2-3 nodes (DESIGN.md section 6) - that part of the statement is outside this technique.",
             "Batch size patched to 2/3 (the code is parametric), heights <= 4/6, node shells; relay-once conditions are decided in C09 (blocks) and C13 (transactions).",
